@@ -92,3 +92,11 @@ Example names_need_identifier_display_names :
   let t := TTuple [TExist "T" 0; TExist "T" 1; TExist "T'1" 2] in
   rank1 t = true /\ In (VExist 1, "?T'1") (tags (print t)) /\ In (VExist 2, "?T'1") (tags (print t)).
 Proof. vm_compute. intuition. Qed.
+
+(* tie for struct names: the printer shows `ty.defn.name`, and `_Guppy.struct` (decorator.py) registers a
+   struct under `cls.__name__`, the identifier the class is bound to in its declaring scope — which is
+   what [wf] assumes when it looks the printed name up in the scope [E]. Re-checked against the source
+   on every run; the differential harness also declares structs in function and class bodies and reads
+   them back in their declaring frame. *)
+Example struct_names_are_class_names : struct_name_source = "cls.__name__".
+Proof. reflexivity. Qed.
